@@ -18,6 +18,18 @@ R10c  in ``generate_source_patches`` every append to the list that is sorted and
 R10d  ``fix_string`` passes ``self.templated_file.source_only_slices()`` as the slicer's second
       argument (def-use), and the templated file's own source string as the third.
 
+Spellings seen through (all decided on resolved facts: ``origins()``, dominance facts with
+boolean locals opened up, attribute chains with local aliases expanded):
+a value read through a local (``fixes = res.fixes``, ``src = patch.source_slice``, ``t =
+self.templated_file``); a test held in a boolean local; ``a or b`` as ``if/elif`` or as two early
+exits; ``extend(x)`` as a loop of ``append``; the conflict loop as ``any(<call> for fix in
+<result>.fixes)``; ``==`` operands in either order and as a chain ``a == b == c``; the slice types
+collected as a list, a generator or directly as a set, and ``all(t == "literal" for t in types)``
+for (no slices or all literal); the keeping arms setting a boolean flag that is assigned on every
+path of the iteration, with one append under the flag; keyword or positional arguments; the kept list sorted in place
+(mutators that cannot add an element are not this rule's business); in R10e the length / the list
+read through a local.
+
 Tables: one symbol per entry with the reason it was accepted; an entry whose symbol has
 disappeared is reported as stale in the evidence, never as a violation.
 
@@ -30,7 +42,7 @@ import ast
 
 from ..cfg import atoms, cfg_of, origins
 from ..flowutil import (
-    attr_chain, branch_of, callee, describe_origin, for_origin, is_fresh_list, must_pass, mutations_of, param_origin,
+    branch_of, callee, describe_origin, for_origin, is_fresh_list, must_pass, mutations_of, param_origin,
     sole_expr_origin, sorted_info,
 )
 from ..index import AnalysisError, FuncNode, arg_of, call_name, calls_in, last_attr, norm, short, walk_local
@@ -357,14 +369,17 @@ def _crawl(chk, repo, plr) -> None:
     for _, p in _handover_sinks(pcfg, plr, pparams[0]):
         if p in pparams:
             out_idx = pparams.index(p)
-    passed = set()
+    # the lists handed to _process_lint_result as its out-parameter, identified by the expression
+    # that created them (so that a second local naming the same list is the same list)
+    passed = {}  # local name -> ids of the creating expressions
     n_calls = 0
     for c in calls_in(f):
         if last_attr(c) == plr.name and (callee(repo, c) or (None, None))[1] is plr:
             n_calls += 1
             a = arg_of(c, out_idx, pparams[out_idx]) if out_idx is not None else None
             if isinstance(a, ast.Name):
-                passed.add(a.id)
+                passed.setdefault(a.id, set()).update(id(o.expr) for o in origins(cfg, a, cfg.stmt_of(c)) if o.kind == "expr")
+    passed_ids = set().union(*passed.values()) if passed else set()
     chk.count("R10a.process_lint_result_calls", n_calls)
     chk.floor("R10a.process_lint_result_calls", 1)
     for acc in sorted(acc_names):
@@ -375,12 +390,14 @@ def _crawl(chk, repo, plr) -> None:
             elif k == "extend" and n.args:
                 src = n.args[0]
             good = False
-            if isinstance(src, ast.Name) and src.id in passed:
+            if isinstance(src, ast.Name):
                 os_ = origins(cfg, src, cfg.stmt_of(n))
-                good = bool(os_) and all(o.kind == "expr" and is_fresh_list(o.expr) for o in os_)
+                good = bool(os_) and all(o.kind == "expr" and is_fresh_list(o.expr) and id(o.expr) in passed_ids for o in os_)
                 if good:
-                    for k2, n2 in mutations_of(f, src.id):
-                        chk.fail("R10a", n2, f"list of discard-filtered fixes changed by '{k2}' inside crawl", detail=f"filtered fixes list {k2}: {short(n2, 60)}")
+                    mine = {id(o.expr) for o in os_}
+                    for nm in sorted({src.id} | {p for p, ids in passed.items() if ids & mine}):
+                        for k2, n2 in mutations_of(f, nm):
+                            chk.fail("R10a", n2, f"list of discard-filtered fixes changed by '{k2}' inside crawl", detail=f"filtered fixes list {k2}: {short(n2, 60)}")
             chk.require(
                 good, "R10a", n,
                 f"crawl adds fixes to its result from '{short(src, 50) if src is not None else k}', which is not a fresh list filled by _process_lint_result",
@@ -515,6 +532,9 @@ def _in_all_list(n) -> bool:
 
 
 # ---------------------------------------------------------------------------
+NON_ADDING = ("sort", "reverse", "pop", "remove", "clear")  # cannot put a patch into the list
+
+
 def _r10c(chk, repo) -> None:
     f = repo.fn(PATCH, "generate_source_patches")
     cfg = cfg_of(f)
@@ -523,7 +543,12 @@ def _r10c(chk, repo) -> None:
     for r in rets:
         e = sole_expr_origin(cfg, r.value, r)
         si = sorted_info(e)
-        it = si.iterable if si is not None else e
+        if si is not None:
+            it = si.iterable
+        elif isinstance(r.value, ast.Name) and e is not None and is_fresh_list(e):
+            it = r.value  # the list itself (sorted in place or not at all; ordering is not this rule's business)
+        else:
+            it = e
         if isinstance(it, ast.Name):
             kept.add(it.id)
         else:
@@ -531,6 +556,8 @@ def _r10c(chk, repo) -> None:
     n_app = 0
     for name in sorted(kept):
         for k, n in mutations_of(f, name):
+            if k in NON_ADDING:
+                continue
             if k != "append":
                 chk.fail("R10c", n, f"filtered patch list changed by '{k}', bypassing the template filter", detail=f"filtered list {k}: {short(n, 60)}")
                 continue
@@ -560,85 +587,187 @@ def _where(cfg, st) -> str:
     return ("under " if g.polarity else "else of ") + "'" + short(g.stmt.test, 70) + "'"
 
 
+def _patch_attr(cfg, e, at, fo):
+    """Attribute tail when ``e`` is ``<iterated patch>.a.b`` (locals expanded), else None."""
+    if not isinstance(e, (ast.Name, ast.Attribute)):
+        return None
+    root, tail, at2 = _xchain(cfg, e, at)
+    if isinstance(root, ast.Name) and for_origin(cfg, root, at2) == fo:
+        return tail
+    return None
+
+
 def _spanning_call(cfg, e, at, fo):
     """``X.raw_slices_spanning_source_slice(<patch>.source_slice)`` for the iterated patch."""
     o = sole_expr_origin(cfg, e, at)
-    if isinstance(o, ast.Call) and last_attr(o) == "raw_slices_spanning_source_slice" and len(o.args) == 1:
-        a = o.args[0]
-        if isinstance(a, ast.Attribute) and a.attr == "source_slice" and for_origin(cfg, a.value, cfg.stmt_of(o)) == fo:
+    if isinstance(o, ast.Call) and last_attr(o) == "raw_slices_spanning_source_slice":
+        a = arg_of(o, 0, "source_slice")
+        if a is not None and len(o.args) + len(o.keywords) == 1 and _patch_attr(cfg, a, cfg.stmt_of(o), fo) == ("source_slice",):
             return o
     return None
 
 
-def _type_list(cfg, e, at, fo):
-    """``[s.slice_type for s in <spanning slices>]``."""
-    o = sole_expr_origin(cfg, e, at)
-    if isinstance(o, ast.ListComp) and len(o.generators) == 1 and not o.generators[0].ifs:
+def _comp_over(o):
+    """(element, loop variable name, iterable) of a one-generator, unfiltered comprehension."""
+    if isinstance(o, (ast.ListComp, ast.SetComp, ast.GeneratorExp)) and len(o.generators) == 1 and not o.generators[0].ifs:
         g = o.generators[0]
-        if isinstance(o.elt, ast.Attribute) and o.elt.attr == "slice_type" and isinstance(g.target, ast.Name) and isinstance(o.elt.value, ast.Name) and o.elt.value.id == g.target.id:
-            return _spanning_call(cfg, g.iter, cfg.stmt_of(o), fo) is not None
+        if isinstance(g.target, ast.Name) and not g.is_async:
+            return o.elt, g.target.id, g.iter
+    return None
+
+
+def _types_of(cfg, e, at, fo):
+    """'seq' for ``[s.slice_type for s in <spanning slices>]`` (list or generator), 'set' for the
+    same as a set comprehension or wrapped in ``set(...)``; None otherwise."""
+    o = sole_expr_origin(cfg, e, at)
+    if o is None:
+        return None
+    co = _comp_over(o)
+    if co is not None:
+        elt, var, it = co
+        if isinstance(elt, ast.Attribute) and elt.attr == "slice_type" and isinstance(elt.value, ast.Name) and elt.value.id == var:
+            if _spanning_call(cfg, it, cfg.stmt_of(o), fo) is not None:
+                return "set" if isinstance(o, ast.SetComp) else "seq"
+        return None
+    if isinstance(o, ast.Call) and call_name(o) in ("set", "frozenset") and len(o.args) == 1 and not o.keywords:
+        return "set" if _types_of(cfg, o.args[0], cfg.stmt_of(o), fo) else None
+    return None
+
+
+def _is_literal_set(x) -> bool:
+    return isinstance(x, ast.Set) and [getattr(v, "value", None) for v in x.elts] == ["literal"]
+
+
+def _single_reason(cfg, e, pol, at, fo):
+    """Keep reason established by one atomic fact, or None."""
+    if not pol:
+        # `not types` / `not local_raw_slices`
+        if _types_of(cfg, e, at, fo) or _spanning_call(cfg, e, at, fo) is not None:
+            return "no local raw slices"
+        return None
+    if isinstance(e, ast.Compare) and len(e.ops) == 1 and isinstance(e.ops[0], ast.Eq):
+        l, r = e.left, e.comparators[0]
+        for x, y in ((l, r), (r, l)):
+            # set(types) == {"literal"}
+            if _is_literal_set(y) and _types_of(cfg, x, at, fo) == "set":
+                return "all local slices literal"
+            # patch.patch_category == "source"
+            if isinstance(y, ast.Constant) and y.value == "source" and _patch_attr(cfg, x, at, fo) == ("patch_category",):
+                return "explicit source patch"
+    # all(t == "literal" for t in types) / all(s.slice_type == "literal" for s in <spanning slices>): true for no slices too
+    if isinstance(e, ast.Call) and call_name(e) == "all" and len(e.args) == 1 and not e.keywords:
+        co = _comp_over(e.args[0])
+        if co is not None and isinstance(co[0], ast.Compare) and len(co[0].ops) == 1 and isinstance(co[0].ops[0], ast.Eq):
+            elt, var, it = co
+            for x, y in ((elt.left, elt.comparators[0]), (elt.comparators[0], elt.left)):
+                if not (isinstance(y, ast.Constant) and y.value == "literal"):
+                    continue
+                if isinstance(x, ast.Name) and x.id == var and _types_of(cfg, it, at, fo):
+                    return "no local raw slices or all literal"
+                if isinstance(x, ast.Attribute) and x.attr == "slice_type" and isinstance(x.value, ast.Name) and x.value.id == var and _spanning_call(cfg, it, at, fo) is not None:
+                    return "no local raw slices or all literal"
+    return None
+
+
+def _flag_reason(cfg, e, at, fo, depth):
+    """``keep = False`` at the top of the iteration, ``keep = True`` in some arms, ``if keep:
+    append`` after them: the flag is true only where it was set to True, so the append inherits the
+    facts of those assignments.  Accepted when every definition reaching the test is a boolean
+    constant, every path from the start of an iteration to the test assigns the flag (so no value
+    of an earlier iteration survives) and every ``True`` assignment has a keep reason of its own."""
+    os_ = origins(cfg, e, at)
+    if not os_ or not all(o.kind == "expr" and not o.path and isinstance(o.expr, ast.Constant) and isinstance(o.expr.value, bool) for o in os_):
+        return None
+    loop = fo[0]
+
+    def in_body(n):
+        return any(n is x or _inside(n, x) for x in loop.body)
+
+    rd = cfg.reaching()
+    start = branch_of(cfg, loop, True)
+    fresh = start is not None and not cfg.paths_avoiding(start, at, lambda n: any(d.name == e.id for d in rd.gen.get(n, [])))
+    trues = [o for o in os_ if o.expr.value is True]
+    if not fresh or not trues or not all(in_body(o.stmt) for o in os_):
+        return None
+    reasons = [_keep_reason(cfg, o.stmt, fo, depth + 1) for o in trues]
+    if all(r is not None for r in reasons):
+        return " / ".join(sorted(set(reasons))) + " (through a keep flag)"
+    return None
+
+
+def _inside(n, container) -> bool:
+    p = getattr(n, "_parent", None)
+    while p is not None:
+        if p is container:
+            return True
+        p = getattr(p, "_parent", None)
     return False
 
 
-def _keep_reason(cfg, st, fo):
-    conds = cfg.conditions(st)
-    zero = boundary = False
-    for e, pol in conds:
-        if not pol:
-            continue
-        at = cfg.stmt_of(e)
-        # (A) not types or set(types) == {"literal"}
-        if isinstance(e, ast.BoolOp) and isinstance(e.op, ast.Or) and len(e.values) == 2:
-            a_ok = b_ok = False
-            for v in e.values:
-                if isinstance(v, ast.UnaryOp) and isinstance(v.op, ast.Not) and _type_list(cfg, v.operand, at, fo):
-                    a_ok = True
-                if (
-                    isinstance(v, ast.Compare) and len(v.ops) == 1 and isinstance(v.ops[0], ast.Eq)
-                    and isinstance(v.left, ast.Call) and call_name(v.left) == "set" and len(v.left.args) == 1 and _type_list(cfg, v.left.args[0], at, fo)
-                    and isinstance(v.comparators[0], ast.Set) and [getattr(x, "value", None) for x in v.comparators[0].elts] == ["literal"]
-                ):
-                    b_ok = True
-            if a_ok and b_ok:
-                return "no local raw slices or all literal"
-        if isinstance(e, ast.Compare) and len(e.ops) == 1 and isinstance(e.ops[0], ast.Eq):
-            l, r = e.left, e.comparators[0]
-            # all literal on its own
-            if isinstance(l, ast.Call) and call_name(l) == "set" and len(l.args) == 1 and _type_list(cfg, l.args[0], at, fo) and isinstance(r, ast.Set) and [getattr(x, "value", None) for x in r.elts] == ["literal"]:
-                return "all local slices literal"
-            # (B) patch.patch_category == "source"
-            for x, y in ((l, r), (r, l)):
-                if isinstance(x, ast.Attribute) and x.attr == "patch_category" and for_origin(cfg, x.value, at) == fo and isinstance(y, ast.Constant) and y.value == "source":
-                    return "explicit source patch"
-            # (C) zero length at the first spanning slice's start
-            cl, cr = attr_chain(l), attr_chain(r)
-            def is_p(ch, tail, node):
-                return ch is not None and ch[1:] == tail and for_origin(cfg, _base(node), at) == fo
-            if (is_p(cl, ("source_slice", "start"), l) and is_p(cr, ("source_slice", "stop"), r)) or (is_p(cl, ("source_slice", "stop"), l) and is_p(cr, ("source_slice", "start"), r)):
-                zero = True
-            for x, y, cx in ((l, r, cl), (r, l, cr)):
-                if is_p(cx, ("source_slice", "start"), x) and isinstance(y, ast.Attribute) and y.attr == "source_idx" and isinstance(y.value, ast.Subscript):
-                    idx = y.value.slice
-                    if isinstance(idx, ast.Constant) and idx.value == 0 and _spanning_call(cfg, y.value.value, at, fo) is not None:
-                        boundary = True
-        if isinstance(e, ast.UnaryOp):
-            pass
-    # `not types` alone on the true edge arrives as (types, False)
-    for e, pol in conds:
-        if not pol and _type_list(cfg, e, cfg.stmt_of(e), fo):
-            return "no local raw slices"
-    if zero and boundary:
+def _keep_reason(cfg, st, fo, depth=0):
+    """Why the patch appended at ``st`` may be kept, decided on the facts known on every path to
+    ``st`` (boolean locals opened, values read through locals resolved):
+    (A) no local raw slices / all local slice types literal, (B) explicit source patch,
+    (C) zero length and starting where the first spanning raw slice starts."""
+    conds = _xconditions(cfg, st)
+    eqs = []  # pairs of expressions known to be equal, with the statement they are evaluated at
+    for e, pol, at in conds:
+        r = _single_reason(cfg, e, pol, at, fo)
+        if r is not None:
+            return r
+        if pol and isinstance(e, ast.Name) and depth < 2:
+            r = _flag_reason(cfg, e, at, fo, depth)
+            if r is not None:
+                return r
+        if pol and isinstance(e, ast.BoolOp) and isinstance(e.op, ast.Or):
+            # one of the alternatives holds: each has to be a keep reason of its own
+            alts = [[_single_reason(cfg, a, p, at2, fo) for a, p, at2 in _xatoms(cfg, v, True, at)] for v in e.values]
+            if all(any(x is not None for x in alt) for alt in alts):
+                return " or ".join(sorted({x for alt in alts for x in alt if x is not None}))
+        if isinstance(e, ast.Compare):
+            ops = [e.left] + list(e.comparators)
+            if pol and all(isinstance(o, ast.Eq) for o in e.ops):
+                eqs += [(ops[i], ops[i + 1], at) for i in range(len(ops) - 1)]
+            elif not pol and len(e.ops) == 1 and isinstance(e.ops[0], ast.NotEq):
+                eqs.append((ops[0], ops[1], at))
+    # (C) on equivalence classes, so that a == b == c, b == a and c == a, ... are the same facts
+    def key(x, at):
+        t = _patch_attr(cfg, x, at, fo)
+        if t is not None:
+            return ("patch",) + t
+        if isinstance(x, (ast.Name, ast.Attribute)):
+            root, tail, at2 = _xchain(cfg, x, at)
+            root = sole_expr_origin(cfg, root, at2) if isinstance(root, ast.Name) else root
+            if isinstance(root, ast.Subscript) and isinstance(root.slice, ast.Constant) and root.slice.value == 0 and _spanning_call(cfg, root.value, cfg.stmt_of(root), fo) is not None:
+                return ("first_spanning_slice",) + tail
+        return ("other", id(x))
+
+    cls = {}
+
+    def find(k):
+        while cls.setdefault(k, k) != k:
+            k = cls[k]
+        return k
+
+    for a, b, at in eqs:
+        cls[find(key(a, at))] = find(key(b, at))
+    start, stop, first = ("patch", "source_slice", "start"), ("patch", "source_slice", "stop"), ("first_spanning_slice", "source_idx")
+    if find(start) == find(stop) and find(start) == find(first):
         return "zero-length insert on a raw-slice boundary"
     return None
 
 
-def _base(node):
-    while isinstance(node, ast.Attribute):
-        node = node.value
-    return node
-
-
 # ---------------------------------------------------------------------------
+def _self_chain(cfg, e, at):
+    """Attribute tail of ``self.a.b`` with local aliases (``t = self.a; t.b``) expanded; None otherwise."""
+    if not isinstance(e, (ast.Name, ast.Attribute)):
+        return None
+    root, tail, at2 = _xchain(cfg, e, at)
+    if isinstance(root, ast.Name) and root.id == "self" and param_origin(cfg, root, at2) == "self":
+        return tail
+    return None
+
+
 def _r10d(chk, repo) -> None:
     slicer = repo.fn(LFILE, SLICER)
     lf = repo.cls(LFILE, "LintedFile")
@@ -653,7 +782,7 @@ def _r10d(chk, repo) -> None:
         st = cfg.stmt_of(call)
         a1 = arg_of(call, 1, "source_only_slices")
         e = sole_expr_origin(cfg, a1, st) if a1 is not None else None
-        ok = isinstance(e, ast.Call) and not e.args and attr_chain(e.func) == ("self", "templated_file", "source_only_slices")
+        ok = isinstance(e, ast.Call) and not e.args and not e.keywords and _self_chain(cfg, e.func, cfg.stmt_of(e)) == ("templated_file", "source_only_slices")
         what = "nothing" if a1 is None else (short(e, 60) if e is not None else ", ".join(describe_origin(o) for o in origins(cfg, a1, st)))
         chk.require(
             ok, "R10d", call,
@@ -664,9 +793,8 @@ def _r10d(chk, repo) -> None:
             for k, n in mutations_of(fn, a1.id):
                 chk.fail("R10d", n, f"source-only slice list changed by '{k}' before slicing", detail=f"source-only list {k}")
         a2 = arg_of(call, 2, "raw_source_string")
-        e2 = sole_expr_origin(cfg, a2, st) if a2 is not None else None
         chk.require(
-            e2 is not None and attr_chain(e2) == ("self", "templated_file", "source_str"), "R10d", call,
+            a2 is not None and _self_chain(cfg, a2, st) == ("templated_file", "source_str"), "R10d", call,
             "the slicer is not given the templated file's own source string", detail="slicer raw source <- self.templated_file.source_str",
         )
         chk.sample({"rule": "R10d", "site": f"{call._module.relpath}:{call.lineno}", "source_only_arg": what})
@@ -708,8 +836,29 @@ _KEEP_BLOCK_OLD = (
     "        ):\n"
 )
 
+_KEEP_TAIL = (
+    "            linter_logger.info(\n"
+    "                \"      * Keeping insertion patch on slice boundary.\",\n"
+    "            )\n"
+    "            filtered_source_patches.append(patch)\n"
+    "            dedupe_buffer.add(dedupe_tuple)\n"
+    "        else:  # pragma: no cover\n"
+)
+_KEEP_IF_OLD = _KEEP_BLOCK_OLD[_KEEP_BLOCK_OLD.index("        # Deal with the easy cases"):] + _KEEP_TAIL
+_APPEND = "            filtered_source_patches.append(patch)\n            dedupe_buffer.add(dedupe_tuple)\n"
+_KEEP_IF_FLAG = (
+    _KEEP_IF_OLD
+    .replace("        # Deal with the easy cases", "        keep = False\n        # Deal with the easy cases")
+    .replace(_APPEND, "            keep = True\n")
+    .replace("        else:  # pragma: no cover\n", "        if keep:\n" + _APPEND + "            continue\n        else:  # pragma: no cover\n")
+)
+
 VARIANTS = [
     # behaviour-preserving refactors: must stay quiet
+    Variant(
+        "quiet-keep-arms-set-a-flag", PATCH, _KEEP_IF_OLD, _KEEP_IF_FLAG,
+        "QUIET", None, "R10c: the three keeping arms set a flag (reset at the top of the iteration); one append under `if keep:`",
+    ),
     Variant(
         "quiet-raw-slice-span-len-hoisted", TBASE,
         "        slice_span = 1\n        while (\n            raw_slice_idx + slice_span < len(self.raw_sliced)\n",
@@ -817,6 +966,12 @@ VARIANTS = [
         "QUIET", None, "R10a: crawl passes the out-lists by keyword",
     ),
     Variant(
+        "quiet-crawl-extends-result-lists", BASE,
+        "            # Consume the new results\n            vs += new_lerrs\n            fixes += new_fixes\n",
+        "            # Consume the new results\n            vs.extend(new_lerrs)\n            batch_fixes = new_fixes\n            fixes.extend(batch_fixes)\n",
+        "QUIET", None, "R10a: crawl consumes the filtered fixes with extend(), through a local",
+    ),
+    Variant(
         "quiet-sourcefix-imported-from-package", "src/sqlfluff/utils/reflow/reindent.py",
         "from sqlfluff.core.parser.segments import SourceFix\n",
         "from sqlfluff.core.parser import SourceFix\n",
@@ -885,6 +1040,12 @@ VARIANTS = [
         "        # Deal with the easy cases of 1) New code at end 2) only literals\n"
         "        if not local_type_list or local_type_list == {\"literal\"}:\n",
         "QUIET", None, "R10c: the slice types collected directly as a set",
+    ),
+    Variant(
+        "quiet-keep-test-as-all", PATCH,
+        "        if not local_type_list or set(local_type_list) == {\"literal\"}:\n",
+        "        if all(slice_type == \"literal\" for slice_type in local_type_list):\n",
+        "QUIET", None, "R10c: (no slices or only literal ones) spelled as all(...), which is true for the empty list too",
     ),
     Variant(
         "quiet-patches-sorted-in-place", PATCH,
@@ -1018,5 +1179,71 @@ VARIANTS = [
         "        source_only_slices = self.templated_file.source_only_slices()\n",
         "        source_only_slices = [s for s in self.templated_file.source_only_slices() if s.slice_type != \"comment\"]\n",
         "R10d", "fix_string", "template comments no longer fenced off",
+    ),
+    # breaking edits written in the refactored spellings the rules now see through
+    Variant(
+        "keep-flag-set-in-a-fourth-arm", PATCH, _KEEP_IF_OLD,
+        _KEEP_IF_FLAG.replace("        if keep:\n", "        elif patch.patch_category != \"literal\":\n            keep = True\n        if keep:\n"),
+        "R10c", "generate_source_patches", "flag spelling with an extra arm that keeps any non-literal category",
+    ),
+    Variant(
+        "keep-flag-survives-iterations", PATCH, _KEEP_IF_OLD,
+        _KEEP_IF_FLAG.replace("        keep = False\n", "        if idx == 0:\n            keep = False\n"),
+        "R10c", "generate_source_patches", "flag reset only for the first patch: a later patch inherits True from an earlier one",
+    ),
+    Variant(
+        "discard-gate-local-holds-another-flag", BASE,
+        "        if not self.template_safe_fixes:\n            self.discard_unsafe_fixes(res, templated_file)\n",
+        "        already_safe = self.is_fix_compatible\n        if not already_safe:\n            self.discard_unsafe_fixes(res, templated_file)\n",
+        "R10a", "_process_lint_result", "hoisted gate reads a different attribute",
+    ),
+    Variant(
+        "discard-any-skips-first-fix", BASE,
+        "        for fix in lint_result.fixes:\n"
+        "            if fix.has_template_conflicts(templated_file):\n"
+        "                linter_logger.info(\n"
+        "                    \"      * Discarding fixes that touch templated code: %s\",\n"
+        "                    lint_result.fixes,\n"
+        "                )\n"
+        "                lint_result.fixes = []\n"
+        "                return\n",
+        "        if any(fix.has_template_conflicts(templated_file) for fix in lint_result.fixes[1:]):\n"
+        "            linter_logger.info(\n"
+        "                \"      * Discarding fixes that touch templated code: %s\",\n"
+        "                lint_result.fixes,\n"
+        "            )\n"
+        "            lint_result.fixes = []\n"
+        "            return\n",
+        "R10a", "discard_unsafe_fixes", "any(...) over a part of the fixes only",
+    ),
+    Variant(
+        "discard-early-exit-inverted", BASE,
+        "        if not lint_result.fixes or not templated_file:\n            return\n",
+        "        if not lint_result.fixes:\n            return\n        if templated_file:\n            return\n",
+        "R10a", "discard_unsafe_fixes", "split early exits, the second one with the wrong polarity",
+    ),
+    Variant(
+        "hoisted-keep-test-counts-templated-as-literal", PATCH,
+        "        if not local_type_list or set(local_type_list) == {\"literal\"}:\n",
+        "        literal_only = not local_type_list or set(local_type_list) <= {\"literal\", \"templated\"}\n        if literal_only:\n",
+        "R10c", "generate_source_patches",
+    ),
+    Variant(
+        "chained-zero-length-at-last-slice", PATCH,
+        "            patch.source_slice.start == patch.source_slice.stop\n            and patch.source_slice.start == local_raw_slices[0].source_idx\n",
+        "            patch.source_slice.start\n            == patch.source_slice.stop\n            == local_raw_slices[-1].source_idx\n",
+        "R10c", "generate_source_patches", "boundary of the wrong raw slice",
+    ),
+    Variant(
+        "spanning-slices-of-templated-slice", PATCH,
+        "        local_raw_slices = templated_file.raw_slices_spanning_source_slice(\n            patch.source_slice\n        )\n",
+        "        src_slice = patch.templated_slice\n        local_raw_slices = templated_file.raw_slices_spanning_source_slice(\n            src_slice\n        )\n",
+        "R10c", "generate_source_patches", "raw slices looked up for another range, through a local",
+    ),
+    Variant(
+        "slicer-alias-of-other-object", LFILE,
+        "        source_only_slices = self.templated_file.source_only_slices()\n",
+        "        templated = self.tree\n        source_only_slices = templated.source_only_slices()\n",
+        "R10d", "fix_string", "alias does not hold the templated file",
     ),
 ]
